@@ -298,6 +298,14 @@ def literal_pairs():
         ("expression-hex-literal", comp("a + 16"), comp("a + 0x10")),
         ("array-length-hex-shorthand-vs-expanded", rec("    a: !array {items: int, dimensions: [0x10]}\n"), rec("    a: int[0x10]\n")),
         ("vector-length-hex-shorthand-vs-expanded", rec("    a: !vector {items: int, length: 0x10}\n"), rec("    a: int*0x10\n")),
+        # lengths at and beyond the 64-bit boundary: shorthand and expanded spelling must get the same verdict
+        ("vector-length-2^64-1", rec("    a: int*18446744073709551615\n"), rec("    a: !vector {items: int, length: 18446744073709551615}\n")),
+        ("vector-length-2^64", rec("    a: int*18446744073709551616\n"), rec("    a: !vector {items: int, length: 18446744073709551616}\n")),
+        ("vector-length-2^64+1", rec("    a: int*18446744073709551617\n"), rec("    a: !vector {items: int, length: 18446744073709551617}\n")),
+        ("vector-length-2^64+1-hex", rec("    a: int*0x10000000000000001\n"), rec("    a: !vector {items: int, length: 0x10000000000000001}\n")),
+        ("array-length-2^64+1", rec("    a: int[18446744073709551617]\n"), rec("    a: !array {items: int, dimensions: [18446744073709551617]}\n")),
+        ("array-length-2^64+1-named", rec("    a: int[x:18446744073709551617]\n"), rec("    a: !array {items: int, dimensions: {x: 18446744073709551617}}\n")),
+        ("vector-length-negative", rec("    a: int*-1\n"), rec("    a: !vector {items: int, length: -1}\n")),
         ("type-in-single-quotes", rec("    a: int?\n"), rec("    a: 'int?'\n")),
         ("type-as-block-scalar", rec("    a: int?\n"), rec("    a: |-\n      int?\n")),
         ("enum-value-hex", "E: !enum\n  values:\n    a: 16\n" + rec("    a: E\n"), "E: !enum\n  values:\n    a: 0x10\n" + rec("    a: E\n")),
